@@ -57,6 +57,9 @@ class AccessMixin(object):
     b = self.builtin_method(st, v, name)
     if b is not None:
       return [(st, b)]
+    if isinstance(v, VCallable) and not name.startswith('__'):
+      # a method of an opaque user object: itself an opaque callable, identified by (object, method name)
+      return [(st, VCallable(z3.Function('attr_' + name, z3.IntSort(), z3.IntSort())(v.t), label='%s.%s' % (v.label, name)))]
     raise Unsupported('attribute %s of %r' % (name, v))
 
   def class_attr(self, st, cls, name):
